@@ -90,7 +90,7 @@ def merge(rec, events, fresh, tail, cellx, case_extra=None, coarse=None):
             if attr == "history-dependent" and coarse is not None:
                 case["full-key"] = key
                 key = coarse(key)
-            rec.violation(key + tail + ":" + attr, f"[{attr}; history {' / '.join(map(str, cellx))}] {a}", case)
+            rec.violation(key + tail + ":" + attr, f"[{attr}; {' / '.join(map(str, cellx))}] {a}", case)
             verdict = "violation"
     if judged(events):
         if not sampled:
@@ -103,6 +103,6 @@ def merge(rec, events, fresh, tail, cellx, case_extra=None, coarse=None):
             case = dict(case_extra or {})
             case["fresh-process"] = fresh
             rec.violation(fv[0] + tail + ":fresh-process-only",
-                          f"the call alone in a fresh process is judged wrong ({fv[0]}) but right inside the history {' / '.join(map(str, cellx))}", case)
+                          f"the call alone in a fresh process is judged wrong ({fv[0]}) but right inside the {' / '.join(map(str, cellx))}", case)
             verdict = "violation"
     return verdict
